@@ -23,6 +23,12 @@ from typing import Any
 from src.analyzers.rust_base import TREE_SITTER_RUST_AVAILABLE, RustBaseAnalyzer
 
 
+def _is_else_if(node: Any) -> bool:
+    """Check whether node is the `if` of an `else if` link (does not add a nesting level)."""
+    parent = node.parent
+    return node.type == "if_expression" and parent is not None and parent.type == "else_clause"
+
+
 class RustNestingAnalyzer(RustBaseAnalyzer):
     """Calculates maximum nesting depth in Rust functions."""
 
@@ -63,6 +69,8 @@ class RustNestingAnalyzer(RustBaseAnalyzer):
                 max_depth_line = node.start_point[0] + 1
 
             new_depth = current_depth + 1 if node.type in self.NESTING_NODE_TYPES else current_depth
+            if _is_else_if(node):
+                new_depth = current_depth  # an else-if chain is one construct, like Python elif
 
             for child in node.children:
                 visit_node(child, new_depth)
